@@ -39,6 +39,7 @@ pub fn run(sc: &Value) -> Value {
                        "byproducts":{"stdout":"","stderr":"","return-value":0},"command":[],"env":null});
         links.insert(name.clone(), serde_json::from_str(&v.to_string()).expect("link parses"));
     }
+    for _ in 1..sc["repeat"].as_u64().unwrap_or(1) { let _ = apply_rules_on_link(&item, &links); }
     match apply_rules_on_link(&item, &links) {
         Ok(()) => json!({"outcome":"ok"}),
         Err(e) => json!({"outcome": crate::err_name(&e)}),
